@@ -170,3 +170,92 @@ Qed.
 (* a close() that forgets what was negotiated: every operation that checks a capability ends with a foreign exception *)
 Lemma later_reset_crashes caps sid c needs : request (c :: needs) (closed_reset (connected_to caps sid)) = RCrash.
 Proof. reflexivity. Qed.
+
+(* ---------------------------------------------------------------------------------------------------------------------
+   Part 3: the closing operations
+   --------------------------------------------------------------------------------------------------------------------- *)
+(* what holds of the object from the session thread's close() on, under the two faithful styles *)
+Definition ended_inv (sty : cstyle) (caps : list N) (t : tobj) : Prop :=
+  e_connected (t_obj t) = false /\ e_caps (t_obj t) = Some caps /\ (sty = CKeep -> t_handle t = true).
+
+Lemma lost_inv sty caps sid : sty <> CDrop -> ended_inv sty caps (lost_t sty caps sid).
+Proof. intros Hs. destruct sty; [| |congruence]; repeat split; try reflexivity. discriminate. Qed.
+
+Lemma close_op_inv sty caps t : sty <> CDrop -> ended_inv sty caps t ->
+  fst (close_op sty t) = CQuiet /\ ended_inv sty caps (snd (close_op sty t)).
+Proof.
+  intros Hs (Hc & Hk & Hh). destruct sty; [| |congruence].
+  - unfold close_op. rewrite (Hh eq_refl). cbn. repeat split; trivial.
+  - cbn. repeat split; trivial. discriminate.
+Qed.
+
+Lemma request_ended caps o needs : e_connected o = false -> e_caps o = Some caps ->
+  request needs o = match request needs {| e_connected := true; e_caps := Some caps; e_sid := e_sid o |} with RSent => RRefused | r => r end.
+Proof.
+  intros Hc Hk. unfold request. rewrite Hk, Hc. cbn [e_caps e_connected].
+  destruct (check_caps_known needs caps) as [H | H]; rewrite H; reflexivity.
+Qed.
+
+Lemma request_sid needs c k s1 s2 :
+  request needs {| e_connected := c; e_caps := k; e_sid := s1 |} = request needs {| e_connected := c; e_caps := k; e_sid := s2 |}.
+Proof. reflexivity. Qed.
+
+Lemma close_session_inv sty caps t : sty <> CDrop -> ended_inv sty caps t ->
+  fst (close_session sty t) = RRefused /\ ended_inv sty caps (snd (close_session sty t)).
+Proof.
+  intros Hs Hi. destruct (close_op_inv sty caps t Hs Hi) as (Hq & Hi').
+  unfold close_session. destruct (close_op sty t) as [c t'] eqn:E. cbn [fst snd] in *. subst c.
+  split; [|exact Hi']. destruct Hi as (Hc & Hk & _). unfold request. rewrite Hk, Hc. reflexivity.
+Qed.
+
+Lemma do_cop_inv sty caps sid op t : sty <> CDrop -> ended_inv sty caps t ->
+  fst (do_cop sty op t) = expect caps sid op /\ ended_inv sty caps (snd (do_cop sty op t)).
+Proof.
+  intros Hs Hi. destruct op as [| |b|needs]; cbn [do_cop expect].
+  - destruct (close_op_inv sty caps t Hs Hi) as (Hq & Hi'). destruct (close_op sty t) as [c t']. cbn [fst snd] in *. subst c. split; trivial.
+  - destruct (close_session_inv sty caps t Hs Hi) as (Hq & Hi'). destruct (close_session sty t) as [r t']. cbn [fst snd] in *. subst r. split; trivial.
+  - destruct (close_session_inv sty caps t Hs Hi) as (Hq & Hi'). unfold with_exit.
+    destruct (close_session sty t) as [r t']. cbn [fst snd] in *. subst r. split; trivial.
+  - cbn [fst snd]. split; [|exact Hi]. destruct Hi as (Hc & Hk & _).
+    rewrite (request_ended caps (t_obj t) needs Hc Hk). unfold connected_to.
+    rewrite (request_sid needs true (Some caps) (e_sid (t_obj t)) (Some sid)).
+    destruct (request needs {| e_connected := true; e_caps := Some caps; e_sid := Some sid |}); reflexivity.
+Qed.
+
+Lemma run_cops_inv sty caps sid ops : sty <> CDrop -> forall t, ended_inv sty caps t ->
+  fst (run_cops sty ops t) = map (expect caps sid) ops /\ ended_inv sty caps (snd (run_cops sty ops t)).
+Proof.
+  intros Hs. induction ops as [|op ops IH]; intros t Hi; cbn [run_cops map]; [split; trivial|].
+  destruct (do_cop_inv sty caps sid op t Hs Hi) as (Hc & Hi1).
+  destruct (do_cop sty op t) as [c t1]. cbn [fst snd] in *.
+  destruct (IH t1 Hi1) as (Hcs & Hi2). destruct (run_cops sty ops t1) as [cs t2]. cbn [fst snd] in *.
+  subst. split; trivial.
+Qed.
+
+(* every sequence of closing operations and requests on the lost session: each ends as the property asks, the object stays
+   disconnected *)
+Lemma c04_closing_refused sty caps sid ops : sty <> CDrop ->
+  fst (run_cops sty ops (lost_t sty caps sid)) = map (expect caps sid) ops /\
+  e_connected (t_obj (snd (run_cops sty ops (lost_t sty caps sid)))) = false.
+Proof.
+  intros Hs. destruct (run_cops_inv sty caps sid ops Hs _ (lost_inv sty caps sid Hs)) as (H & Hc & _). split; trivial.
+Qed.
+
+(* never a foreign exception, never the body's own exception in place of the refusal *)
+Lemma expect_codes caps sid op : expect caps sid op = 0 \/ expect caps sid op = 1 \/ expect caps sid op = 2.
+Proof.
+  destruct op as [| |b|needs]; cbn [expect]; auto.
+  unfold request, connected_to. cbn [e_caps e_connected].
+  destruct (check_caps_known needs caps) as [H | H]; rewrite H; cbn; auto.
+Qed.
+
+(* a close() that uses the handle unguarded and drops it: the first closing operation after the loss ends with a foreign
+   exception - also close_session() and the end of the with-block, whose refusal / whose body's exception it replaces *)
+Lemma closing_drop_crashes caps sid op rest : (forall needs, op <> OReq needs) ->
+  exists cs, fst (run_cops CDrop (op :: rest) (lost_t CDrop caps sid)) = 3 :: cs.
+Proof.
+  intros Hop. destruct op as [| |b|needs]; [| | |exfalso; eapply Hop; reflexivity]; cbn [run_cops].
+  - cbn. destruct (run_cops CDrop rest _) as [cs t2]. eexists; reflexivity.
+  - cbn. destruct (run_cops CDrop rest _) as [cs t2]. eexists; reflexivity.
+  - cbn. destruct (run_cops CDrop rest _) as [cs t2]. eexists; reflexivity.
+Qed.
